@@ -11,9 +11,10 @@ from __future__ import annotations
 
 import copy
 import math
+import traceback
 
 from harness.lib import CaseFile, coq_bool, coq_string, qlit
-from harness.props.c17 import ERR, _cum, cpts, failing, same_failure, shrink_points
+from harness.props.c17 import ERR, _cum, cpts, same_failure, shrink_points
 
 MODEL_TARGETS = ["gen/CurvesConsts.vo", "model/RDP.vo", "model/Curves.vo"]
 ALLOWED_AXIOMS = []
@@ -118,8 +119,7 @@ def gen_column(rng):
             h = max(0.0, h + rng.choice([0, 0, -20, -5, 5, 20, 7.5, 0.0005, -0.0005, 0.002]))
             hs.append(h)
     elif kind == "ties":
-        hs = _cum([rng.choice([0.005, 0.015, 1.005, 0.125, 0.375, 2.675, 0.0])] * 0 + [rng.choice([0.005, 0.015, 1.005, 0.125, 0.375, 2.675]) for _ in range(n)])
-        hs = list(reversed(hs))
+        hs = list(reversed(_cum([rng.choice([0.005, 0.015, 1.005, 0.125, 0.375, 2.675]) for _ in range(n)])))   # x.xx5 and k/8 rounding ties
     elif kind == "vertical":
         hs, h = [], 50.0
         for _ in range(n):
@@ -170,6 +170,8 @@ P13_KIND = {1: ("graph-point-not-a-table-row", "an emitted point is not a table 
             6: ("graph-segments-not-maximal", "adjacent segments carry the same classification"),
             7: ("clean-ends-relative-tolerance", "end trimming uses numpy's relative tolerance (1e-5*|H|): a row differing by more than the display rounding is dropped from the curve end"),
             8: ("clean-curve-collinearity-drift", "rows removed together drift from the emitted chord by more than the display tolerance"),
+            10: ("clean-ends-relative-tolerance", "the graph assembly raises IndexError: every enthalpy of the column lies within numpy's relative band "
+                 "tol+1e-5*|H0| of the first one while the variance test passed (np.flatnonzero(mask)[0] on an empty array)"),
             9: ("clean-variance-early-return", "no point is emitted although the column spreads by more than the display rounding (variance < tol early return)")}
 
 STAGE_CORPUS = [
@@ -183,6 +185,7 @@ STAGE_CORPUS = [
     dict(gcc=True, util=False, pref=None, loc=None, rows=[]),
     dict(gcc=False, util=False, pref=None, loc="HotS", rows=[(0.0, 5.0), (0.0, 4.0)]),
     dict(gcc=False, util=False, pref=None, loc="ColdS", rows=[(50000.3, 410.0), (50000.0, 400.0), (25000.0, 200.0), (0.0, 100.0)]),  # relative band (open finding)
+    dict(gcc=False, util=False, pref=None, loc="ColdS", rows=[(64000.25, 310.0), (64000.0, 300.0), (64000.0, 40.0)]),   # relative band: raises IndexError
     # collinearity drift (D16) at display scale: T = 300 + H^2/8192 on 400 steps of 1/16 (second difference 9.5e-7 < tol):
     # two points emitted, the middle rows are 0.019 K off the chord, i.e. 3.9 kW at their temperature (bound 0.005*(1+205))
     dict(gcc=False, util=False, pref=None, loc="HotS", rows=[(i / 16, 300.0 + (i / 16) ** 2 / 8192) for i in range(400, -1, -1)]),
@@ -192,6 +195,8 @@ STAGE_CORPUS = [
 
 
 def classify_failure(v, err):
+    if v[:2] == [3, 10]:
+        return P13_KIND[10]
     if err == "NaN":
         return "graph-nan-point", "a returned data point is NaN/inf (D32 regression?)"
     if err:
@@ -208,14 +213,14 @@ def shrink_curve(ctx, c, v, runner):
     def still(cands):
         cs = [runner(dict(c, rows=r)) for r in cands]
         return [same_failure(x, v) for x in judge_curves(ctx, cs, "shrink")]
-    rows = shrink_points(list(c["rows"]), still, min_len=0) if c["rows"] else c["rows"]
+    rows = shrink_points(list(c["rows"]), still, min_len=0, time_budget=20.0) if c["rows"] else c["rows"]
     c2 = runner(dict(c, rows=rows))
     v2 = judge_curves(ctx, [c2], "final")[0]
     return c2, v2
 
 
 def stage_suite(ctx):
-    n = ctx.budget(400, 10000)
+    n = ctx.budget(320, 10000)
     curves, meta = [], []
     for c in STAGE_CORPUS:
         curves.append(run_stage_nan(c))
@@ -457,18 +462,29 @@ SETS_KIND = {1: ("graph-set-missing-or-foreign", "graph-set keys differ from the
 
 
 def e2e_suite(ctx):
-    n = ctx.budget(60, 1500)
+    n = ctx.budget(45, 1500)
     problems = [gen_problem(ctx.rng) for _ in range(n)]
     problems[0:0] = E2E_CORPUS
     curves, meta, setcases, extcases = [], [], [], []
-    raised = 0
+    raised = raised_rtol = 0
     for pi, prob in enumerate(problems):
         try:
             ob = observe(prob)
         except Exception as e:  # noqa: BLE001  (totality is C14's property; here it only limits what can be observed)
             raised += 1
-            ctx.count("e2e_service_raised")
-            ctx.notes.append(f"service raised {type(e).__name__}: {str(e)[:80]}") if len(ctx.notes) < 3 else None
+            frames = [(f.filename.rsplit("/", 1)[-1], f.name) for f in traceback.extract_tb(e.__traceback__)]
+            if isinstance(e, IndexError) and ("miscellaneous.py", "clean_composite_curve_ends") in frames[-1:]:
+                ctx.count("e2e_service_raised_in_end_trimming")
+                if not raised_rtol:
+                    ctx.fail("clean-ends-relative-tolerance",
+                             "pinch_analysis_service raises IndexError while building the graphs: every enthalpy of a curve lies within numpy's "
+                             "relative band tol+1e-5*|H0| of the first one (np.flatnonzero(mask)[0] on an empty array in clean_composite_curve_ends)",
+                             input=dict(problem=prob), impl_output=dict(error=f"{type(e).__name__}: {e}", frames=frames[-4:]), suite="e2e",
+                             predicate="every curve of every record is emitted (no exception)")
+                raised_rtol += 1
+            else:
+                ctx.count("e2e_service_raised_elsewhere")
+                ctx.notes.append(f"service raised {type(e).__name__}: {str(e)[:80]} at {frames[-1:]}") if len(ctx.notes) < 3 else None
             continue
         o = prob["options"]
         tag = ("B" if o.get("DO_BALANCED_CC", True) else "b") + ("V" if o.get("DO_VERTICAL_GCC") else "v") + ("A" if o.get("DO_ASSITED_HT") else "a")
@@ -549,6 +565,8 @@ E2E_CORPUS = [
     # CU0 (80 + 5) sit on the same shifted level; the Total Site Target reports Qh = 247.5, Qc = 22.5 (22.5 recovered through the
     # utility system) while its H_net_ut table (SUGCC) runs from 270.0 to 45.0
     dict(streams=[S("Z0", "S01", 60, 240, 270, 10), S("Z2", "S22", 130, 40, 45, 0)], utilities=[U("HU1", "Hot", 90), U("CU0", "Cold", 80)], options={}),
+    # relative band, severe form: the cold composite [64000.25, 64000, ...] is entirely within 1e-5*|H0| of its first value: the SERVICE raises
+    dict(streams=[S("Z0", "H", 290, 40, 64000, 5), S("Z0", "Ctiny", 300, 310, 0.25, 0)], utilities=[], options={}),
 ]
 
 
